@@ -13,7 +13,70 @@ sys.path.insert(0, os.path.dirname(os.path.abspath(__file__)))
 import common  # noqa: E402
 from streams import gather as G  # noqa: E402
 
-EXT = {"sig": ".sig", "lin": ".sig", "lazy": ".sig", "zip": ".zip", "sbt": ".sbt.zip", "lca": ".lca.json", "sql": ".sqldb"}
+EXT = {"sig": ".sig", "lin": ".sig", "lazy": ".sig", "zip": ".zip", "sbt": ".sbt.zip", "lca": ".lca.json", "sql": ".sqldb",
+       "dir": "_dir", "multi": "_multi", "pl": ".pathlist.txt", "mf": ".manifest.csv"}
+
+
+class SubprocRunner:
+    """one interpreter per invocation (thorough tier): `python -m sourmash ...`"""
+
+    def __init__(self, pkg):
+        self.pkg = pkg
+
+    def write(self, spec):
+        sp = os.path.join(spec["dir"], "spec.json")
+        json.dump(spec, open(sp, "w"))
+        env = dict(os.environ, PYTHONPATH=self.pkg)
+        r = subprocess.run([common.PY, os.path.join(common.VERIF, "harness", "adapters", "cli_files.py"), sp],
+                           env=env, stdout=subprocess.PIPE, stderr=subprocess.PIPE, text=True)
+        return (r.returncode == 0), r.stderr[-500:]
+
+    def run(self, args, cwd):
+        env = dict(os.environ, PYTHONPATH=self.pkg)
+        r = subprocess.run([common.PY, "-m", "sourmash"] + args, cwd=cwd, env=env,
+                           stdout=subprocess.PIPE, stderr=subprocess.PIPE, text=True, timeout=600)
+        return r.returncode, r.stdout, r.stderr
+
+    def close(self):
+        pass
+
+
+class ServerRunner:
+    """one interpreter for many invocations (quick tier): adapters/cli_server.py runs
+    `sourmash.__main__.main(argv)` in-process"""
+
+    def __init__(self, pkg):
+        env = dict(os.environ, PYTHONPATH=pkg)
+        self.p = subprocess.Popen([common.PY, os.path.join(common.VERIF, "harness", "adapters", "cli_server.py")],
+                                  env=env, stdin=subprocess.PIPE, stdout=subprocess.PIPE, stderr=subprocess.DEVNULL,
+                                  text=True, bufsize=1)
+
+    def _ask(self, req):
+        self.p.stdin.write(json.dumps(req) + "\n")
+        self.p.stdin.flush()
+        line = self.p.stdout.readline()
+        if not line:
+            raise common.ToolFailure("cli_server died (exit %s)" % self.p.poll())
+        return json.loads(line)
+
+    def write(self, spec):
+        a = self._ask({"op": "write", "spec": spec})
+        return bool(a.get("ok")), a.get("err", "")
+
+    def run(self, args, cwd):
+        a = self._ask({"op": "run", "argv": args})
+        return a.get("rc", 1), a.get("out", ""), a.get("err", "")
+
+    def close(self):
+        try:
+            self.p.stdin.close()
+            self.p.wait(timeout=20)
+        except Exception:           # noqa: BLE001
+            self.p.kill()
+
+
+def as_runner(x):
+    return SubprocRunner(x) if isinstance(x, str) else x
 
 
 def case_tables(case):
@@ -30,37 +93,33 @@ def case_tables(case):
     return sigs, files
 
 
-def write_files(case, pkg):
-    """-> (tmpdir, query path, {db slot: path})"""
+def write_files(case, pkg, kinds=None, query_slot=0):
+    """-> (tmpdir, query path, {db slot: path}); `kinds` = {db slot: file kind} overrides the kind of a collection
+    (the same signatures, organised differently on disk)"""
+    runner = as_runner(pkg)
     sigs, files = case_tables(case)
     root = os.path.join(common.VERIF, ".build", "tmp")
     os.makedirs(root, exist_ok=True)
     d = tempfile.mkdtemp(prefix="cli_", dir=root)
     spec = {"dir": d, "sigs": {str(k): v for k, v in sigs.items()}, "files": []}
     paths = {}
-    spec["files"].append({"path": "query.sig", "kind": "sig", "sigs": [0]})
+    spec["files"].append({"path": "query.sig", "kind": "sig", "sigs": [query_slot]})
     for slot, (kind, members) in files.items():
         if not members:
             continue
+        kind = (kinds or {}).get(slot, kind)
         p = f"db{slot}{EXT[kind]}"
         spec["files"].append({"path": p, "kind": "sig" if kind in ("lin", "lazy") else kind, "sigs": members})
         paths[slot] = os.path.join(d, p)
-    sp = os.path.join(d, "spec.json")
-    json.dump(spec, open(sp, "w"))
-    env = dict(os.environ, PYTHONPATH=pkg)
-    r = subprocess.run([common.PY, os.path.join(common.VERIF, "harness", "adapters", "cli_files.py"), sp],
-                       env=env, stdout=subprocess.PIPE, stderr=subprocess.PIPE, text=True)
-    if r.returncode != 0:
+    ok, err = runner.write(spec)
+    if not ok:
         shutil.rmtree(d, ignore_errors=True)
-        return None, None, r.stderr[-500:]
+        return None, None, err
     return d, os.path.join(d, "query.sig"), paths
 
 
 def run_cli(pkg, args, cwd):
-    env = dict(os.environ, PYTHONPATH=pkg)
-    r = subprocess.run([common.PY, "-m", "sourmash"] + args, cwd=cwd, env=env,
-                       stdout=subprocess.PIPE, stderr=subprocess.PIPE, text=True, timeout=600)
-    return r.returncode, r.stdout, r.stderr
+    return as_runner(pkg).run(args, cwd)
 
 
 def read_csv(path):
@@ -114,10 +173,37 @@ def same_row(a, b):
     return True
 
 
+def _sig_md5s(path):
+    """md5s (ints) of the signatures saved to a JSON signature file, in file order"""
+    try:
+        return [int(x["md5sum"], 16) for rec in json.load(open(path)) for x in rec["signatures"]]
+    except Exception:           # noqa: BLE001
+        return None
+
+
+def _rows_agree(rows, exp, tie_ok):
+    """-> index of the first real difference or None.  `tie_ok`: the collections are not in the API's (list)
+    order, so two sketches with the same unique overlap may be reported in either order; from the first such
+    tie on the runs may legitimately differ."""
+    for j, (x, y) in enumerate(zip(rows, exp)):
+        if same_row(x, y):
+            continue
+        if tie_ok:
+            kx, ky = dict(w.split("=", 1) for w in x.split(" ")), dict(w.split("=", 1) for w in y.split(" "))
+            if kx["ubp"] == ky["ubp"] and kx["rank"] == ky["rank"]:
+                return None
+        return j
+    return None if len(rows) == len(exp) else min(len(rows), len(exp))
+
+
 def cli_gather_case(args):
-    """one thorough-tier case of C07: `sourmash gather` on files against the in-process observations.
-    args = (case, impl_lines, pkg) -> list of (signature, message, data)"""
-    case, impl, pkg = args
+    """one case of C07 through `sourmash gather` on files against the in-process observations of the same case.
+    args = (case, impl_lines, pkg | runner[, opts]) -> list of (signature, message, data)
+    opts: kinds {db slot: file kind}, save_matches, save_prefetch, create_empty, linear (None/True/False),
+    explicit_prefetch (pass --prefetch / --no-prefetch explicitly), scaled (value for --scaled; the query file is
+    then written from `query_slot`, a finer copy of the API's query)"""
+    case, impl, pkg = args[0], args[1], args[2]
+    opts = args[3] if len(args) > 3 else {}
     bad = []
     gd = next((l for l in case if l.startswith("gd ")), None)
     if gd is None:
@@ -133,7 +219,8 @@ def cli_gather_case(args):
         return bad
     if mode == "prefetch" and w[4] == "-":
         return bad          # the CLI's prefetch mode corresponds to the ident / noident flavour only
-    d, qpath, paths = write_files(case, pkg)
+    kinds = {int(a): b for a, b in (opts.get("kinds") or {}).items()}
+    d, qpath, paths = write_files(case, pkg, kinds=kinds, query_slot=opts.get("query_slot", 0))
     if d is None:
         return [("C07:cli:cannot-write-files", str(paths), {"case": case})]
     try:
@@ -142,11 +229,27 @@ def cli_gather_case(args):
             return bad
         out = os.path.join(d, "out.csv")
         un = os.path.join(d, "un.sig")
-        a = ["gather", qpath] + dbs + ["--threshold-bp", str(thr), "-o", out, "--output-unassigned", un, "-q"]
+        a = ["gather", qpath] + dbs + ["--threshold-bp", str(thr), "-o", out, "--output-unassigned", un]
         if ign:
             a.append("--ignore-abundance")
         if mode == "ondemand":
             a.append("--no-prefetch")
+        elif opts.get("explicit_prefetch"):
+            a.append("--prefetch")
+        if opts.get("linear") is True:
+            a.append("--linear")
+        elif opts.get("linear") is False:
+            a.append("--no-linear")
+        if opts.get("scaled"):
+            a += ["--scaled", str(opts["scaled"])]
+        sm = os.path.join(d, "matches.sig")
+        if opts.get("save_matches"):
+            a += ["--save-matches", sm]
+        sp_path = os.path.join(d, "prefetch.sig")
+        if opts.get("save_prefetch") and mode == "prefetch":
+            a += ["--save-prefetch", sp_path]
+        if opts.get("create_empty"):
+            a.append("--create-empty-results")
         rc, so, se = run_cli(pkg, a, d)
         if rc != 0 and "remaining_mh += noident_mh" in se and "mismatch in scaled" in se:
             bad.append(("C07:cli:gather-output-unassigned-crashes:match-coarser-than-query",
@@ -172,7 +275,8 @@ def cli_gather_case(args):
             scs = [int(G.parse_kv(o)["sc"]) for o in impl[k + 1:] if o.startswith("ok rank=")]
             s_final = max(scs) if scs else int(G.parse_kv(impl[k])["cmp"])
             noid = G.down(noid, s_final)
-            if got is not None and got != (left | noid):
+            tie_free = not kinds
+            if got is not None and got != (left | noid) and tie_free:
                 bad.append(("C07:cli:unassigned-output-differs",
                             f"--output-unassigned holds {len(got)} hashes, expected {len(left | noid)}",
                             {"case": case, "args": a}))
@@ -182,11 +286,32 @@ def cli_gather_case(args):
         if rc != 0 and not crashed and exp:
             bad.append(("C07:cli:gather-exit-%d" % rc, se[-300:], {"case": case, "args": a}))
         elif not crashed:
-            if len(rows) != len(exp) or any(not same_row(x, y) for x, y in zip(rows, exp)):
-                i = next((j for j, (x, y) in enumerate(zip(rows, exp)) if not same_row(x, y)), min(len(rows), len(exp)))
+            i = _rows_agree(rows, exp, tie_ok=bool(kinds))
+            if i is not None:
                 bad.append(("C07:cli:gather-csv-differs-from-api",
                             f"round {i}: cli={rows[i][:200] if i < len(rows) else '<none>'} api={exp[i][:200] if i < len(exp) else '<none>'}",
                             {"case": case, "args": a, "cli": rows, "api": exp}))
+            same_all = len(rows) == len(exp) and all(same_row(x, y) for x, y in zip(rows, exp))
+            if opts.get("save_matches") and same_all and exp:
+                got = _sig_md5s(sm)
+                want = [int(G.parse_kv(o)["md5"]) for o in impl[k + 1:] if o.startswith("ok rank=")]
+                if got != want:
+                    bad.append(("C07:cli:save-matches-differs",
+                                f"--save-matches holds {got}, the reported matches are {want}", {"case": case, "args": a}))
+            if opts.get("save_prefetch") and mode == "prefetch" and rc == 0:
+                got = _sig_md5s(sp_path)
+                want = set()
+                for l, o in zip(case, impl):
+                    if l.startswith("cg ") and o.startswith("ok ") and ":" in o:
+                        body = o.split(" ")[1].split(":", 1)[1]
+                        want |= {int(x.split("=")[0]) for x in body.split(",") if x}
+                if got is None or set(got) != want:
+                    bad.append(("C07:cli:save-prefetch-differs",
+                                f"--save-prefetch holds {sorted(got or [])[:6]}..., the counters hold {sorted(want)[:6]}...",
+                                {"case": case, "args": a}))
+            if opts.get("create_empty") and not exp and not os.path.exists(out):
+                bad.append(("C07:cli:create-empty-results-missing",
+                            "--create-empty-results: no CSV although gather found nothing", {"case": case, "args": a}))
     finally:
         shutil.rmtree(d, ignore_errors=True)
     return bad
@@ -197,8 +322,10 @@ def cli_multigather_case(args):
     done by the command itself): the CSV it writes for the query against the in-process observations of the same
     case, and the `.unassigned` signature against what gather left plus the never-identified hashes (downsampled to
     the final comparison scaled).
-    args = (case, impl, pkg) -> list of (signature, message, data)"""
-    case, impl, pkg = args
+    args = (case, impl, pkg | runner[, opts]) -> list of (signature, message, data)"""
+    case, impl, pkg = args[0], args[1], args[2]
+    opts = args[3] if len(args) > 3 else {}
+    kinds = {int(a): b for a, b in (opts.get("kinds") or {}).items()}
     bad = []
     gd = next((l for l in case if l.startswith("gd ")), None)
     if gd is None:
@@ -211,7 +338,7 @@ def cli_multigather_case(args):
     cs = w[6:]
     if not all(c.startswith("c") for c in cs) or w[4] == "-":
         return bad          # multigather = prefetch counters + ident / noident
-    d, qpath, paths = write_files(case, pkg)
+    d, qpath, paths = write_files(case, pkg, kinds=kinds)
     if d is None:
         return [("C07:cli:cannot-write-files", str(paths), {"case": case})]
     try:
@@ -220,7 +347,7 @@ def cli_multigather_case(args):
             return bad
         outdir = os.path.join(d, "mg")
         os.makedirs(outdir, exist_ok=True)
-        a = ["multigather", "--query", qpath, "--db"] + dbs + ["--threshold-bp", str(thr), "--output-dir", outdir, "-q"]
+        a = ["multigather", "--query", qpath, "--db"] + dbs + ["--threshold-bp", str(thr), "--output-dir", outdir]
         if ign:
             a.append("--ignore-abundance")
         rc, so, se = run_cli(pkg, a, d)
@@ -233,8 +360,8 @@ def cli_multigather_case(args):
         if rc != 0 and not crashed:
             bad.append(("C07:cli:multigather-exit-%d" % rc, se[-300:], {"case": case, "args": a}))
         elif not crashed:
-            if len(rows) != len(exp) or any(not same_row(x, y) for x, y in zip(rows, exp)):
-                i = next((j for j, (x, y) in enumerate(zip(rows, exp)) if not same_row(x, y)), min(len(rows), len(exp)))
+            i = _rows_agree(rows, exp, tie_ok=bool(kinds))
+            if i is not None:
                 bad.append(("C07:cli:multigather-csv-differs-from-api",
                             f"round {i}: cli={rows[i][:200] if i < len(rows) else '<none>'} api={exp[i][:200] if i < len(exp) else '<none>'}",
                             {"case": case, "args": a, "cli": rows, "api": exp}))
@@ -250,7 +377,7 @@ def cli_multigather_case(args):
                 noid = set(G.ints(G.parse_kv(sp)["noident"])) if sp else set()
                 scs = [int(G.parse_kv(o)["sc"]) for o in impl[k + 1:] if o.startswith("ok rank=")]
                 noid = G.down(noid, max(scs))
-                if got is not None and got != (left | noid):
+                if got is not None and got != (left | noid) and not kinds:
                     bad.append(("C07:cli:multigather-unassigned-differs",
                                 f".unassigned.sig holds {len(got)} hashes, expected {len(left | noid)}",
                                 {"case": case, "args": a}))
@@ -260,6 +387,40 @@ def cli_multigather_case(args):
     finally:
         shutil.rmtree(d, ignore_errors=True)
     return bad
+
+
+def quick_gather_batch(args):
+    """quick tier of C07: a batch of cases through `sourmash gather` and (prefetch-mode cases) `sourmash multigather`,
+    all invocations in ONE interpreter (adapters/cli_server.py).  args = (jobs, pkg), jobs = [(case, impl, opts)]
+    -> [(violations, invocations)] per job"""
+    jobs, pkg = args
+    r = ServerRunner(pkg)
+    out = []
+    try:
+        for case, impl, opts in jobs:
+            bad = cli_gather_case((case, impl, r, opts))
+            n = 1
+            if any(l.startswith("split ") for l in case):
+                bad = bad + cli_multigather_case((case, impl, r, {"kinds": opts.get("kinds")}))
+                n += 1
+            out.append((bad, n))
+    finally:
+        r.close()
+    return out
+
+
+def quick_partition_batch(args):
+    """quick tier of C08: a batch of partition cases through `sourmash search | prefetch | gather`, one interpreter.
+    args = (jobs, pkg), jobs = [(case, impl, kinds)] -> [violations] per job"""
+    jobs, pkg = args
+    r = ServerRunner(pkg)
+    out = []
+    try:
+        for case, impl, kinds in jobs:
+            out.append(cli_partition_case((case, r, kinds, impl)))
+    finally:
+        r.close()
+    return out
 
 
 def _bits(v):
@@ -275,14 +436,20 @@ def _canon(pairs):
 def cli_partition_case(args):
     """one thorough-tier case of C08: `sourmash search | prefetch | gather` on files, one invocation per
     organisation; the CSVs are turned into the observations of the partition stream and judged by its oracle.
-    args = (case, pkg) -> list of (signature, message, data)"""
+    args = (case, pkg | runner[, kinds[, impl]]) -> list of (signature, message, data)
+    kinds = {db slot: file kind}: the same signatures organised differently on disk (one JSON file, a zip, a directory,
+    a directory tree, a pathlist of a zip and a file, a standalone manifest, ...); impl = the in-process
+    observations of the same case: search / prefetch rows of the command line must equal the API's."""
     from streams import partition as P
-    case, pkg = args
-    d, qpath, paths = write_files(case, pkg)
+    case, pkg = args[0], args[1]
+    kinds = {int(a): b for a, b in ((args[2] if len(args) > 2 else None) or {}).items()}
+    impl = args[3] if len(args) > 3 else None
+    d, qpath, paths = write_files(case, pkg, kinds=kinds)
     if d is None:
         return [("C08:cli:cannot-write-files", str(paths), {"case": case})]
     obs = []
     md5full = {}
+    asserts = []
     try:
         sigs, _ = G.parse_case(case)
         lazy = {int(l.split()[1]): True for l in case if l.startswith("xdb ") and l.split()[2] == "lazy"}
@@ -319,8 +486,21 @@ def cli_partition_case(args):
                     rc, so, se = run_cli(pkg, a, d)
                     if rc != 0 and "unattainable" in se:
                         o = "err ValueError"
+                    elif rc != 0 and "assert result.pass_threshold" in se:
+                        # search.prefetch_database re-checks every row of Index.prefetch in base pairs; for a query
+                        # finer than the database Index.prefetch admits sketches below threshold_bp (D6) and the
+                        # command dies on the assert
+                        _, ftab = case_tables(case)
+                        qsc = sigs[int(w[1])]["scaled"]
+                        dsc = max([sigs[m]["scaled"] for x in w[3:] if int(x) in ftab for m in ftab[int(x)][1]] or [0])
+                        d6 = qsc < dsc and int(w[2]) > 0
+                        asserts.append(("C08:cli:prefetch-AssertionError:query-finer-than-db:threshold_bp>0" if d6
+                                        else "C08:cli:prefetch-AssertionError",
+                                        f"`sourmash prefetch --threshold-bp {w[2]}` died on `assert result.pass_threshold` "
+                                        f"(query scaled {qsc}, database scaled {dsc})", {"case": case, "args": a}))
+                        o = "err AssertionError"
                     elif rc != 0:
-                        o = "err cli-exit-%d" % rc
+                        o = "err cli-exit-%d %s" % (rc, se[-200:].replace("\n", " | "))
                     else:
                         o = _canon([(md5full.get(r["match_md5"], int(r["match_md5"], 16)), float(r["f_match_query"]))
                                     for r in read_csv(out)])
@@ -359,13 +539,26 @@ def cli_partition_case(args):
         # drop the ops that were not run
         keep = [(l, o) for l, o in zip(case, obs) if o is not None]
         c2, o2 = [l for l, _ in keep], [o for _, o in keep]
-        bad = []
+        bad = list(asserts)
         for idx, sig, msg in P.oracle(c2, o2):
             bad.append((sig.replace("C08:", "C08:cli:", 1) if not sig.endswith(("coarser-than-stored-sketch", "scaled", "threshold_bp>0", "jaccard-ani")) else sig,
                         msg, {"case": case, "observations": o2, "op_index": idx}))
         for l, o in keep:
             if o.startswith(("err cli", "x err cli")):
                 bad.append(("C08:cli:command-failed", f"`{l[:80]}`: {o}", {"case": case}))
+        if impl is not None:
+            for l, o, io in zip(case, obs, impl):
+                if o is None or not l.startswith(("searchc", "pfallc")):
+                    continue
+                io = io[:-5] if io.endswith(" L=ok") else io
+                if l.startswith("pfallc") and o.startswith("ok") and io.startswith("ok"):
+                    # `prefetch` prints the de-biased containment (f_match_query), the API row the plain quotient:
+                    # compare which sketches are reported
+                    o = "ok " + ",".join(sorted(x.split(":")[0] for x in o[3:].split(",") if x))
+                    io = "ok " + ",".join(sorted(x.split(":")[0] for x in io[3:].split(",") if x))
+                if o != io and not (o.startswith("err") or io.startswith("err")):
+                    bad.append(("C08:cli:rows-differ-from-api", f"`{l[:60]}`: cli={o[:160]} api={io[:160]}",
+                                {"case": case, "kinds": {str(a): b for a, b in kinds.items()}}))
         return bad
     finally:
         shutil.rmtree(d, ignore_errors=True)
